@@ -1,5 +1,5 @@
 /* C15, assumption A6: C models of the body-less x86 builtins that gcc's SSE4.2 intrinsic headers
- * expand to (sse_ops.c uses exactly these 16 + __builtin_prefetch).  Written from the Intel SDM
+ * expand to (sse_ops.c uses exactly the first 16 + __builtin_prefetch; 5 more at the end for the AVX2/AVX-512 bool kernels).  Written from the Intel SDM
  * vol. 2 "Operation" pseudo-code of the instruction named in each comment.  TRUSTED; validated
  * natively against the hardware instructions by /tmp/simd/model_test.c (random + edge vectors,
  * see the report) -- build with -DIA32_MODEL_NATIVE to get the same bodies as model_<name>().
@@ -101,6 +101,37 @@ unsigned IA32(crc32qi)(unsigned crc, unsigned char v) { return crc32c_bits(crc, 
 unsigned IA32(crc32hi)(unsigned crc, unsigned short v) { return crc32c_bits(crc, v, 16); }
 unsigned IA32(crc32si)(unsigned crc, unsigned v) { return crc32c_bits(crc, v, 32); }
 unsigned long long IA32(crc32di)(unsigned long long crc, unsigned long long v) { return crc32c_bits((uint32_t)crc, v, 64); }
+
+/* ---- additional builtins used by carquet_avx2_pack_bools and carquet_avx512_{pack,unpack}_bools ---- */
+typedef char m_v64qi __attribute__((__vector_size__(64)));
+/* PSRLDQ: byte shift right of the 128-bit value; the builtin takes the count in BITS; > 15 bytes -> 0 */
+m_v2di IA32(psrldqi128)(m_v2di a, int bits) {
+  m_v16qi s = (m_v16qi)a, r;
+  int n = bits / 8;
+  for (int i = 0; i < 16; i++) r[i] = (n >= 0 && n <= 15 && i + n <= 15) ? s[i + n] : 0;
+  return (m_v2di)r;
+}
+/* PEXTRW: word imm & 7, zero-extended by the caller's cast (the builtin returns the signed element) */
+short IA32(vec_ext_v8hi)(m_v8hi a, int i) { return a[i & 7]; }
+/* VPBROADCASTB zmm{k}, r8: element i = k[i] ? a : src[i] */
+m_v64qi IA32(pbroadcastb512_gpr_mask)(char a, m_v64qi src, unsigned long long k) {
+  m_v64qi r;
+  for (int i = 0; i < 64; i++) r[i] = ((k >> i) & 1) ? a : src[i];
+  return r;
+}
+/* VPTESTMB k{k1}, zmm, zmm: bit i = k1[i] && (a[i] & b[i]) != 0 */
+unsigned long long IA32(ptestmb512)(m_v64qi a, m_v64qi b, unsigned long long k) {
+  unsigned long long r = 0;
+  for (int i = 0; i < 64; i++) r |= (unsigned long long)((((k >> i) & 1) && (a[i] & b[i]) != 0) ? 1 : 0) << i;
+  return r;
+}
+/* VMOVDQU8 zmm{k}, m512: element i = k[i] ? p[i] : src[i]; masked-off bytes are NOT accessed
+ * (SDM: no faults are reported for masked-off elements), so only selected bytes are dereferenced */
+m_v64qi IA32(loaddquqi512_mask)(const char *p, m_v64qi src, unsigned long long k) {
+  m_v64qi r;
+  for (int i = 0; i < 64; i++) r[i] = ((k >> i) & 1) ? p[i] : src[i];
+  return r;
+}
 #ifndef IA32_MODEL_NATIVE
 /* PREFETCHh: no architectural effect */
 void __builtin_prefetch(const void *p, ...) { (void)p; }
